@@ -16,7 +16,7 @@ PROPS = {
     "C01": dict(
         title="A DAG call returns exactly what the plain Python function would return",
         core=["REF-DEREF", "REF-KEY", "REF-FIELDS", "REF-ASDICT"],
-        aux=["REF-MAT", "REF-SHAPE", "REF-OPS", "REF-NI", "SCH-ARMS", "OWN-ARGS", "REF-GETITEM", "REF-RESERVED", "REF-TRACE", "VAL-ARGCOUNT", "OWN-STRICT", "REF-SEED", "REF-PREFIX", "REF-ACTIVE-BUILD", "REF-RESULTTRY", "REF-FUNCOPY"],
+        aux=["REF-MAT", "REF-SHAPE", "REF-OPS", "REF-NI", "SCH-ARMS", "OWN-ARGS", "REF-GETITEM", "REF-RESERVED", "REF-TRACE", "VAL-ARGCOUNT", "OWN-STRICT", "REF-SEED", "REF-PREFIX", "REF-ACTIVE-BUILD", "REF-RESULTTRY", "REF-FUNCOPY", "REF-UNWRAP"],
         explanation="Necessary structural conditions of value equivalence, re-derived from source on every run: every reference "
                     "(node id + key path) is dereferenced only through the accessor; key paths survive every re-identification; "
                     "every reference field is handled at every reference-handling site and restored after dataclasses.asdict; "
@@ -39,7 +39,7 @@ PROPS = {
     "C03": dict(
         title="Each selected active node runs exactly once per execution, nothing else runs",
         core=["SCH-ONCE", "SCH-ORIGIN", "SCH-PRUNE", "SCH-DONE"],
-        aux=["OWN-STRICT", "OWN-FORCE", "REF-UNIQ", "GT-CYCLE", "GT-GATE", "GT-CARRY", "REF-KEY", "SCH-DEACT", "GT-POP", "GT-ALIAS", "OWN-LIVERESULTS", "REF-WRAPDICT", "REF-FUNCOPY"],
+        aux=["OWN-STRICT", "OWN-FORCE", "REF-UNIQ", "GT-CYCLE", "GT-GATE", "GT-CARRY", "REF-KEY", "SCH-DEACT", "GT-POP", "GT-ALIAS", "OWN-LIVERESULTS", "REF-WRAPDICT", "REF-FUNCOPY", "REF-UNWRAP"],
         explanation="Exactly-once event pattern on every loop path: the selected id leaves the runnable set exactly once on every "
                     "path that dispatches or deactivates it and never otherwise; at most one dispatch per iteration; pre-computed "
                     "ids pruned before the runnable set is formed; results map write-once; per-call-site ids.",
@@ -200,7 +200,7 @@ PROPS = {
     "C19": dict(
         title="A composed DAG computes the outputs from the supplied intermediate values",
         core=["REF-FIELDS", "REF-KEY", "OWN-COMPOSE"],
-        aux=["VAL-COMPOSE", "VAL-COMPOSE-ANC", "VAL-COMPOSE-OVERLAP", "REF-REWIRE", "GT-ALIAS", "GT-POP"],
+        aux=["VAL-COMPOSE", "VAL-COMPOSE-ANC", "VAL-COMPOSE-OVERLAP", "REF-REWIRE", "GT-ALIAS", "GT-POP", "REF-FUNCOPY"],
         explanation="Rewiring covers every reference field and keeps key paths; in-place edits touch deep copies only; the three "
                     "ValueErrors are reachable with tests not weaker than stated (input-depends-on-input uses the ancestor "
                     "closure).",
